@@ -29,7 +29,11 @@ func init() {
 			Run: func(r *ev.Run) { describe(r); reg.Isolated(r, id, 3*time.Hour) },
 			Worker: func(a []string) int {
 				r := ev.New(id, reg.Tier, "model_checking")
-				run(r, id)
+				if len(a) > 1 && a[0] == "sched" {
+					runOneSched(r, a[1])
+				} else {
+					run(r, id)
+				}
 				return reg.WorkerExit(r)
 			},
 			Replay: func(r *ev.Run, c json.RawMessage) { replayCase(r, id, c) }})
